@@ -36,79 +36,6 @@ abbrev NoS1 (st : St α) : Prop := AllEv NotS1 st
 /-- no store to any output buffer so far -/
 abbrev NoWrite (st : St α) : Prop := AllEv NotWrite st
 
-/-- the spec "whatever way this piece ends, `P` holds of the events logged" -/
-def always (P : St α → Prop) : Spec α := ⟨P, fun _ => P, fun _ => P⟩
-
-/-- case analysis of one step of the model, every leaf closed by `simp` -/
-macro "step_cases" : tactic =>
-  `(tactic| ((repeat' split) <;> simp_all [always, AllEv, or_imp]))
-
-section steps
-variable (P : Event α → Prop)
-
-omit [LT α] [DecidableRel (fun a b : α => a < b)] [Sub α] [Neg α] [OfScientific α] in
-theorem stepInit_all (s : Script α) (st : St α) (h : AllEv P st) (hi : P .init) :
-    (stepInit s st).Sat (always (AllEv P)) := by
-  unfold stepInit
-  step_cases
-
-omit [LT α] [DecidableRel (fun a b : α => a < b)] [Sub α] [Neg α] [OfScientific α] in
-theorem stepCheckBounds_all (s : Script α) (st : St α) (h : AllEv P st)
-    (h1 : P .cb) (h2 : P .warn) (h3 : P .cbdone) :
-    (stepCheckBounds s st).Sat (always (AllEv P)) := by
-  unfold stepCheckBounds
-  step_cases
-
-omit [LT α] [DecidableRel (fun a b : α => a < b)] [Sub α] [Neg α] [OfScientific α] in
-theorem stepSosCompute_all (s : Script α) (b : Bool) (st : St α) (h : AllEv P st)
-    (h0 : P (if b then .sos1 else .sos0)) : (stepSosCompute s b st).Sat (always (AllEv P)) := by
-  unfold stepSosCompute
-  step_cases
-
-omit [LT α] [DecidableRel (fun a b : α => a < b)] [Sub α] [Neg α] [OfScientific α] in
-theorem stepExportTO_all (s : Script α) (o : Out) (st : St α) (h : AllEv P st)
-    (h0 : P .gto) (h1 : P (.write o)) : (stepExportTO s o st).Sat (always (AllEv P)) := by
-  unfold stepExportTO
-  step_cases
-
-omit [LT α] [DecidableRel (fun a b : α => a < b)] [Sub α] [Neg α] [OfScientific α] in
-theorem stepEnergyCompute_all (has : Bool) (a : Act) (sg : Stage) (e : Event α) (st : St α)
-    (h : AllEv P st) (h0 : P e) : (stepEnergyCompute has a sg e st).Sat (always (AllEv P)) := by
-  unfold stepEnergyCompute
-  step_cases
-
-omit [Sub α] [Neg α] [OfScientific α] in
-theorem stepIntegrate_all (s : Script α) (smt : SMType) (st : St α) (h : AllEv P st)
-    (h0 : ∀ r, P (.ap r)) (h1 : P (.int s.smflag smt)) (h2 : ∀ r, P (.apo r)) (h3 : P .min) :
-    (stepIntegrate s smt st).Sat (always (AllEv P)) := by
-  unfold stepIntegrate
-  step_cases
-
-theorem stepPred_all (v : Variant) (s : Script α) (st : St α) (h : AllEv P st)
-    (h0 : P .sos0) (h1 : P (.write .sos)) (h2 : ∀ t, P (.pred s.smflag t)) (h3 : P .gto)
-    (h4 : P (.write .kpred)) : (stepPred v s st).Sat (always (AllEv P)) := by
-  unfold stepPred
-  apply R.bind_sat (AllEv P)
-  · split
-    · apply R.bind_sat (AllEv P)
-      · exact stepSosCompute_all P s false st h (by simpa using h0)
-      · intro st hst
-        simp_all [always, AllEv, or_imp]
-    · simpa [always, AllEv, or_imp] using h
-  · intro st hst
-    split
-    · simp_all [always, AllEv, or_imp]
-    · simp only []
-      split
-      · simp_all [always, AllEv, or_imp]
-      · split
-        · simp_all [always, AllEv, or_imp]
-        · apply R.bind_sat (AllEv P)
-          · exact stepExportTO_all P s .kpred _ (by simp_all [AllEv, or_imp]) h3 h4
-          · intro st hst
-            simpa [always, AllEv, or_imp] using hst
-
-end steps
 
 /-- everything before the export of the state writes nothing to `s1` — in both variants -/
 theorem prefix_noS1 (s : Script α) (smt : SMType) (st : St α) (h : NoS1 st) :
